@@ -14,6 +14,7 @@ submissions racing `Stop`), task durations and interleavings of submitters, work
 * `c19_counter`, `c19_idle_counter_zero`   the counter equation; idle ∧ not stopped ⇒ `concurrent = 0`
 * `c19_parallelism`         from an idle pool, as many mutually waiting tasks as a fresh pool runs together
                             (maxC − 1 on workers plus one on the dispatcher) run together again
+* `c19_parallelism_new`     the same for `taskpool.New(n, q)` by name: `n - 2` on workers (+1 on the dispatcher)
 * `c19_panic_contained`     a panicking task leaves worker/dispatcher exactly where a returning one does
 * `c19_no_stuck`            with or without `Stop`: while a task is owed a run or running some internal step or task
                             end is enabled (no deadlock, no stranded task)
@@ -187,6 +188,18 @@ theorem c19_parallelism_dispatcher (g : Cfg) (s : St) (t : Nat) (hl : g.leak = f
     s'.disp = .running t ∧ s'.workers = s.workers ∧ s'.conc = s.conc ∧ s'.queue = [] ∧ s'.goers = [] := by
   have hcap' : 0 < g.cap := hcap
   simp [run, step, hfull, hg, hq, hd, hl, hcap']
+
+/-- The same with `taskpool.New(n, q)` by name (`maxConcurrent = n - 1`): from any idle, not stopped reachable state
+    `k ≤ n - 2` tasks handed over all run at the same time on workers; with `c19_parallelism_dispatcher` one more runs on
+    the dispatcher — **`n - 1` simultaneous tasks, not `n`**, is what "as many as the bound allows" means for this pool
+    (and `c19_bound` says never more than `n`). -/
+theorem c19_parallelism_new (n q : Nat) (as : List Act) (ts : List Nat) :
+    idle (run { maxC := (n : Int) - 1, cap := q } init as) →
+    (run { maxC := (n : Int) - 1, cap := q } init as).stopAdd = false → ts.length + 2 ≤ n →
+    runningTasks (run { maxC := (n : Int) - 1, cap := q } (run { maxC := (n : Int) - 1, cap := q } init as)
+      (ts.map Act.go)) = ts := by
+  intro hi hs hlt
+  exact c19_parallelism { maxC := (n : Int) - 1, cap := q } rfl as ts hi hs (by simp only; omega)
 
 /-! ### nothing is stranded -/
 
